@@ -17,7 +17,9 @@ type txnAnchors struct {
 	fQueue, fWatches *types.Var
 	dispatchHandler  *ssa.Function // contains the handler dispatch site
 	dispatchSite     ssa.CallInstruction
-	prepare          *ssa.Function // appends to *cs.cmdQueue
+	prepare          *ssa.Function // decides "queued or run now" and produces the response (appends itself or through appender)
+	appender         *ssa.Function // contains the append to *cs.cmdQueue (prepare, or a helper of it that reports `queued`)
+	appendCall       *ssa.Call     // the call of appender in prepare (nil when prepare appends itself)
 	appendStore      *ssa.Store    // the store of the appended slice
 	handlers         map[string]*ssa.Function
 	errs             []string
@@ -57,6 +59,35 @@ func (c *Ctx) txn() *txnAnchors {
 	}
 	if t.prepare == nil {
 		t.errs = append(t.errs, "no function appends to *clientState.cmdQueue")
+	} else {
+		t.appender = t.prepare
+		hasResp := func(fn *ssa.Function) bool {
+			res := fn.Signature.Results()
+			for i := 0; i < res.Len(); i++ {
+				if _, isIface := res.At(i).Type().Underlying().(*types.Interface); isIface {
+					return true
+				}
+			}
+			return false
+		}
+		// the append may sit in a helper that reports "queued" to the function that builds the response
+		for depth := 0; depth < 2 && !hasResp(t.prepare); depth++ {
+			node := c.CG.Nodes[t.prepare]
+			if node == nil || len(node.In) != 1 {
+				break
+			}
+			call, ok := node.In[0].Site.(*ssa.Call)
+			if !ok || call.Call.StaticCallee() != t.prepare {
+				break
+			}
+			if depth == 0 {
+				t.appendCall = call
+			}
+			t.prepare = node.In[0].Caller.Func
+		}
+		if !hasResp(t.prepare) {
+			t.prepare, t.appendCall = t.appender, nil
+		}
 	}
 	hs, err := c.M.Handlers()
 	if err != nil {
@@ -206,9 +237,9 @@ func ruleC09QueueOnly(c *Ctx) {
 			c.S.Trivial("R-C09-queue-only", "control-table", c.Pos(c.globalInit("unqueuedCmdTable").Pos()), "exactly multi, exec, discard, watch bypass the queue")
 		}
 	}
-	// (2) append guarded by queue != nil
+	// (2) append guarded by queue != nil (in the function that appends)
 	p := t.prepare
-	nonNil, _, _ := t.queueNonNilSucc(p)
+	nonNil, _, _ := t.queueNonNilSucc(t.appender)
 	ab := t.appendStore.Block()
 	if nonNil == nil || !(nonNil == ab || nonNil.Dominates(ab)) {
 		c.S.Bad("R-C09-queue-only", fnName(p)+":append-guard", c.Pos(t.appendStore.Pos()), "the queue append is not dominated by the `cmdQueue != nil` branch")
@@ -227,13 +258,55 @@ func ruleC09QueueOnly(c *Ctx) {
 		c.S.Undecided("R-C09-queue-only", fnName(p)+":response", c.Pos(p.Pos()), "no interface-typed response result")
 	} else {
 		bad := false
-		for b := range reachableFrom(ab, nil) {
+		// where the response must be non-nil from: the append itself, or — when a helper appends and reports it — the side
+		// of the branch on the helper's result that corresponds to "appended"
+		from := ab
+		if t.appendCall != nil {
+			from = nil
+			fixed := boolResultsAfter(t.appendStore)
+			if len(fixed) == 1 {
+				for idx, val := range fixed {
+					var res ssa.Value = t.appendCall
+					if t.appendCall.Call.Signature().Results().Len() > 1 {
+						res = nil
+						for _, r := range referrers(t.appendCall) {
+							if ex, ok := r.(*ssa.Extract); ok && ex.Index == idx {
+								res = ex
+							}
+						}
+					}
+					for _, b := range p.Blocks {
+						ifi, ok := b.Instrs[len(b.Instrs)-1].(*ssa.If)
+						if !ok || res == nil {
+							continue
+						}
+						cond, neg := ifi.Cond, false
+						if u, isU := cond.(*ssa.UnOp); isU && u.Op == token.NOT {
+							cond, neg = u.X, true
+						}
+						if cond == res {
+							side := 0
+							if val == neg {
+								side = 1
+							}
+							from = b.Succs[side]
+						}
+					}
+				}
+			}
+			if from == nil {
+				c.S.Bad("R-C09-queue-only", fnName(p)+":queued-reply", c.Pos(t.appendCall.Pos()), "the helper that appends to the queue does not report it by a fixed boolean that the caller branches on: a queued command can also be executed")
+				bad = true
+				from = t.appendCall.Block()
+			}
+		}
+		for b := range reachableFrom(from, nil) {
 			ret, ok := b.Instrs[len(b.Instrs)-1].(*ssa.Return)
 			if !ok {
 				continue
 			}
 			v := ret.Results[respIdx]
-			if !nonNilOnPathsFrom(v, ab, b) {
+			if !nonNilOnPathsFrom(v, from, b) {
 				bad = true
 				c.S.Bad("R-C09-queue-only", fnName(p)+":queued-reply", c.Pos(ret.Pos()), "a return after the queue append can carry a nil response: the command would be queued AND executed")
 			}
@@ -351,14 +424,47 @@ func ruleC09Exclusive(c *Ctx) {
 	lm := c.M.Locks()
 	h := t.handlers["exec"]
 	fID := c.Field("dataStoreCommand", "id")
+	// the function with the replay loop: the EXEC handler itself, or a helper it calls (replayQueued(ctx)); then the
+	// call of the helper in the handler is where the lock must be held
+	replayFn := h
+	var viaCall *ssa.Call
+	hasDispatch := func(g *ssa.Function) bool {
+		for _, in := range instrsOf(g) {
+			if call, ok := in.(*ssa.Call); ok && call.Call.StaticCallee() == t.dispatchHandler {
+				return true
+			}
+		}
+		return false
+	}
+	if !hasDispatch(h) {
+		for _, in := range instrsOf(h) {
+			call, ok := in.(*ssa.Call)
+			if !ok {
+				continue
+			}
+			g := call.Call.StaticCallee()
+			if g == nil || !c.InPkg(g) || g == h {
+				continue
+			}
+			if hasDispatch(g) {
+				replayFn, viaCall = g, call
+				continue
+			}
+			for _, in2 := range instrsOf(g) {
+				if c2, ok := in2.(*ssa.Call); ok && c2.Call.StaticCallee() != nil && hasDispatch(c2.Call.StaticCallee()) && viaCall == nil {
+					replayFn, viaCall = c2.Call.StaticCallee(), call
+				}
+			}
+		}
+	}
 	n := 0
-	for _, in := range instrsOf(h) {
+	for _, in := range instrsOf(replayFn) {
 		call, ok := in.(*ssa.Call)
 		if !ok || call.Call.StaticCallee() != t.dispatchHandler {
 			continue
 		}
 		n++
-		if lm.DB >= 0 && lm.LocallyHeld(call).has(lm.DB) {
+		if lm.DB >= 0 && (lm.LocallyHeld(call).has(lm.DB) || (viaCall != nil && lm.LocallyHeld(viaCall).has(lm.DB))) {
 			c.S.OK("R-C09-exclusive", fnName(h)+":replay-under-lock", c.Pos(call.Pos()), "database lock held at the replay call")
 		} else {
 			c.S.Bad("R-C09-exclusive", fnName(h)+":replay-under-lock", c.Pos(call.Pos()), "queued commands are replayed without holding the database lock: other clients can interleave")
@@ -396,13 +502,13 @@ func ruleC09Exclusive(c *Ctx) {
 	// one exclusive section spans the whole replay: inside the loop that replays the queue nothing (other than the
 	// replayed command itself, whose nested lock/unlock are no-ops under the exclusive hold) releases the database lock
 	var yields []string
-	for _, in := range instrsOf(h) {
+	for _, in := range instrsOf(replayFn) {
 		call, ok := in.(*ssa.Call)
 		if !ok || call.Call.StaticCallee() != t.dispatchHandler {
 			continue
 		}
 		loopBlk := call.Block()
-		for _, b := range h.Blocks {
+		for _, b := range replayFn.Blocks {
 			if !(plainReachAvoid(loopBlk, b, nil) && plainReachAvoid(b, loopBlk, nil)) && b != loopBlk {
 				continue
 			}
@@ -550,12 +656,20 @@ func ruleC09ErrorsInert(c *Ctx) {
 							touches = true
 						}
 					}
+					grows := false
 					if mu, ok := in2.(*ssa.MapUpdate); ok {
 						if _, f := loadedField(mu.Map); f == t.fWatches {
 							touches = true
+							grows = true // a registration (resets are plain stores and belong to every exit of EXEC/DISCARD)
 						}
 					}
 					if !touches {
+						continue
+					}
+					if grows && b != in.Block() && before[b] {
+						// some path registers a watch and then answers this error (the registration need not dominate the
+						// reply: a loop over the keys runs zero or more times)
+						bad = "on a path that leads to the error reply (a refused command has registered watches)"
 						continue
 					}
 					// same block: order matters
